@@ -45,7 +45,7 @@ def register(K):
                modifies=STEP_FRAME, may_raise=ERR + ["StopIteration"], exact_raises=False,
                logs=[("step", ["self", "result"])],
                ensures=["stepped(self, old(self._opcodes), result)"],
-               ensures_raise={"StopIteration": ["self._module is not None"]},
+               ensures_raise={"StopIteration": ["self._module is not None", "module_has_whole_body(self._module, self.module_body._list)"]},
                loops={0: dict(invariant=[], modifies=["@ast.lineno", "@ast.col_offset"])})
     K.contract("fickle.Interpreter.run", params="self: fickle.Interpreter", modifies=STEP_FRAME, may_raise=ERR, exact_raises=False,
                ensures=["self._module is not None"],
@@ -57,6 +57,13 @@ def register(K):
                logs=[("to_ast", ["self"])])
     K.contract("fickle.Interpreter.interpret", params="pickled: fickle.Pickled", returns="val", may_raise=ERR, exact_raises=False,
                modifies=["@list.items", "@ast.lineno", "@ast.col_offset", "@iterator.pos"], ensures=["result is not None"])
+
+    @K.spec("module_has_whole_body")
+    def module_has_whole_body(eng, st, module, body):
+        """the finished ast.Module holds every statement of the module body, in order (nothing anchored is dropped at the end)"""
+        m = eng.as_ref(module, st)
+        b = st.read("ast.body", m, Val)
+        return vbool(z3.And(Val.is_R(b), st.items(Val.r(b)) == eng.as_seq(body, st), st.cls_of(m) == __import__("pyvc.state", fromlist=["clsid"]).clsid("ast.Module")))
 
     @K.spec("stepped")
     def stepped(eng, st, interp, old_it, result):
